@@ -101,6 +101,81 @@ func (l *live) view() (string, error) {
 	return hx.Joined(refs, logs), nil
 }
 
+// lookupNames are the names every point lookup is made for (the two names the transactions use, one absent).
+var lookupNames = []string{"refs/a", "refs/b", "refs/zz"}
+
+// lookups is what a reader sees through point lookups instead of scans: ReadRef of every name and RefsFor
+// of every object id the model knows (plus one it does not), through the handle's merged view.
+func (l *live) lookups() (string, error) {
+	m := l.st.Merged()
+	var sb strings.Builder
+	for _, n := range lookupNames {
+		rec, err := reftable.ReadRef(m, n)
+		if err != nil {
+			return "", fmt.Errorf("ReadRef(%s): %v", n, err)
+		}
+		if rec == nil {
+			fmt.Fprintf(&sb, "ReadRef(%s) = absent\n", n)
+		} else {
+			fmt.Fprintf(&sb, "ReadRef(%s) = %s\n", n, hx.RefCanon(rec))
+		}
+	}
+	for _, oid := range l.oids() {
+		it, err := m.RefsFor(oid)
+		if err != nil {
+			return "", fmt.Errorf("RefsFor(%x): %v", oid, err)
+		}
+		var got []string
+		var rec reftable.RefRecord
+		for {
+			ok, err := it.NextRef(&rec)
+			if err != nil {
+				return "", fmt.Errorf("RefsFor(%x) iteration: %v", oid, err)
+			}
+			if !ok {
+				break
+			}
+			got = append(got, hx.RefCanon(&rec))
+		}
+		fmt.Fprintf(&sb, "RefsFor(%x) = %v\n", oid[:4], got)
+	}
+	return sb.String(), nil
+}
+
+// oids are the object ids worth asking for: every value and peeled value of the model, and an absent one.
+func (l *live) oids() [][]byte {
+	seen := map[string]bool{}
+	var out [][]byte
+	for _, r := range l.model.SortedRefs() {
+		for _, v := range [][]byte{r.Value, r.Peeled} {
+			if v != nil && !seen[string(v)] {
+				seen[string(v)] = true
+				out = append(out, v)
+			}
+		}
+	}
+	return append(out, hx.Hash("no such object", l.hs))
+}
+
+func (l *live) modelLookups() string {
+	var sb strings.Builder
+	for _, n := range lookupNames {
+		if r, ok := l.model.Refs[n]; ok && r.Kind != 0 {
+			fmt.Fprintf(&sb, "ReadRef(%s) = %s\n", n, refdb.RefCanon(r))
+		} else {
+			fmt.Fprintf(&sb, "ReadRef(%s) = absent\n", n)
+		}
+	}
+	for _, oid := range l.oids() {
+		var want []string
+		for _, r := range l.model.RefsFor(oid) {
+			want = append(want, refdb.RefCanon(r))
+		}
+		fmt.Fprintf(&sb, "RefsFor(%x) = %v\n", oid[:4], want)
+	}
+	return sb.String()
+}
+
 // newestLog returns the newest live log entry of a ref in the model.
 func newestLog(m *refdb.DB, name string) (uint64, bool) {
 	var best uint64
@@ -208,6 +283,11 @@ func (r *runner) apply(l *live, o Op, h *History, check bool) (applicable bool) 
 		if want := l.model.CanonString(l.hs); v1 != want {
 			viol("compaction:view-differs-from-model", fmt.Sprintf("after %s the view differs from the reference map.\n--- got\n%s\n--- want\n%s", o, v1, want))
 		}
+		if lk, err := l.lookups(); err != nil {
+			viol("compaction:lookup-fails-after:"+errClass(err.Error()), fmt.Sprintf("after %s a point lookup fails: %v", o, err))
+		} else if want := l.modelLookups(); lk != want {
+			viol("compaction:lookups-differ-from-model", fmt.Sprintf("after %s point lookups (ReadRef, RefsFor) differ from the reference map.\n--- got\n%s--- want\n%s", o, lk, want))
+		}
 		if got := len(listNames(l.w)); got > len(beforeList)-(last-first) {
 			viol("compaction:table-count", fmt.Sprintf("%s left %d tables, had %d", o, got, len(beforeList)))
 		}
@@ -279,6 +359,15 @@ func (r *runner) apply(l *live, o Op, h *History, check bool) (applicable bool) 
 				sig = "autocompact:view-differs-from-model"
 			}
 			viol(sig, fmt.Sprintf("after %s the view differs from the reference map.\n--- got\n%s\n--- want\n%s", o, v1, want))
+		}
+		if lk, err := l.lookups(); err != nil {
+			viol("add:lookup-fails-after:"+errClass(err.Error()), fmt.Sprintf("after %s a point lookup fails: %v", o, err))
+		} else if want := l.modelLookups(); lk != want {
+			sig := "add:lookups-differ-from-model"
+			if h.Auto {
+				sig = "autocompact:lookups-differ-from-model"
+			}
+			viol(sig, fmt.Sprintf("after %s point lookups (ReadRef, RefsFor) differ from the reference map.\n--- got\n%s--- want\n%s", o, lk, want))
 		}
 	}
 	// whatever the operation was, every table the list names must still be there
